@@ -25,11 +25,15 @@ CHECKS = {
  "C12": ("model_checking", "6 C12", "FlytPool.tla (Submit = Add + blocking send, FIFO queue of 2*workers, worker select loop, Wait, Close) model-checked over every interleaving of submitters/workers/rounds (state invariants AtMostOnce, WgExact, WaitBarrier, RoundBarrier, PoolBound; liveness Close ~> all workers exited under weak fairness); C12_Clauses (one-pass monitor over submit/submitret/taskstart/taskend/waitcall/waitret/leak events) checked on the gated-scheduler behaviours, which are replayed on the real pool (gated submitters and task bodies); random pools to 16 workers / 500 tasks / 4 submitters / 3 rounds under the race detector with plain writes read back after Wait and a goroutine-dump leak probe; judged by TLC."),
  "C13": ("model_checking", "6 C13", "Linearizability decided history by history by TLC: FlytStoreConc.tla (Call / silent Lin applying StoreSem!Apply atomically / Ret must return what Lin computed) must have a behaviour consuming each recorded call/ret history (2-6 goroutines from a barrier, all operations incl. Merge of up to 8 keys, Clear, GetAll, Keys, Len, typed getters); the lock-level model FlytStoreLock.tla (RWMutex, per-key loop bodies) is model-checked to refine the atomic store; recording and an additional stress run execute under the Go race detector (a report is a violation)."),
  "C14": ("model_checking", "6 C14", "FlytStore.tla explores every operation sequence (with snapshot mutation / read-back / merge-snapshot steps) over 2 keys x values incl. nil up to the bound, checking mutual consistency of Has/Len/Keys/GetAll in every state; every exported sequence is replayed on the real store; PropsStore!Replay (fold of StoreSem!Apply) is evaluated by TLC on every recorded history incl. random sequences up to 200 operations over 12 keys (empty and non-ASCII keys, nil values)."),
+ "C15": ("model_checking", "6 C15", "Decision table FlytAccess.tla (38 value classes x 6 families x plain/Or/Must x result/store/absent); TLC enumerates all 1572 cells and checks the consistency relations the property states (never panics, Must/plain/Or agreement, store = result, conversion exactly for the documented types); every cell is exercised on the real accessors with several representative values per class (boundary values of all numeric kinds, NaN/Inf, typed nils, self-containing slice, uncomparable structs/arrays) plus seeded random values; the harness logs plain facts (panicked, ok, equals default / zero / Go's own conversion / ToSlice elementwise) and TLC judges each call against its cell."),
+ "C16": ("model_checking", "6 C16", "Decision table FlytBind.tla (carrier x key present x nil value x destination class x encoding/json reference outcome -> err / copy / json), consistency relations checked by TLC; every cell exercised with maps, tagged/untagged structs, slices, scalars, pointers, channels, funcs and random nested JSON values against a reference json.Marshal+Unmarshal into a fresh destination; never-panics, source-unchanged and carrier-agreement facts judged by TLC."),
+ "C19": ("model_checking", "6 C19", "FlytConfig.tla builds configuration step sequences (constructor option / builder method / NodeOption applied later) and checks stepwise application = last-setting-wins, unrelated parameters untouched; every sequence up to the bound is exported and applied to real NodeBuilder / BatchNodeBuilder objects; getters and two probe runs (attempts on an always-failing exec, fallback / functions actually called, concurrency high-water mark at a barrier, stop vs continue) are compared by TLC with the expected configuration; random sequences up to length 6."),
 }
 ENGINE = ["C01", "C02", "C03", "C04", "C05", "C10", "C17", "C18"]
 BATCH = ["C06", "C07", "C08", "C09", "C11"]
 POOL = ["C12"]
 STORE = ["C13", "C14"]
+TABLES = ["C15", "C16", "C19"]
 
 checks = []
 for p in props:
@@ -43,7 +47,7 @@ for p in props:
         "thorough_cmd": "./check %s --tier thorough" % pid,
         "evidence_file": "/verif/evidence/%s.json" % pid,
         "replay_cmd_template": "./check replay {path}",
-        "engine": "tla-engine" if pid in ENGINE else "tla-batch" if pid in BATCH else "tla-pool" if pid in POOL else "tla-store" if pid in STORE else "tla",
+        "engine": "tla-engine" if pid in ENGINE else "tla-batch" if pid in BATCH else "tla-pool" if pid in POOL else "tla-store" if pid in STORE else "tla-tables" if pid in TABLES else "tla",
         "level_claimed": {"category": cat, "text": text, "design_ref": "DESIGN.md section " + ref},
         "level_note": TRUST,
         "technique": "explicit TLA+ spec model-checked with TLC; TLC-generated behaviours replayed into the real code; TLA+ property predicates evaluated by TLC on histories recorded from the real code",
@@ -59,6 +63,8 @@ m = {
  "engines": [
    {"name": "tla-engine", "path": "/verif/spec/FlytEngine.tla", "serves_properties": ENGINE,
     "kind_free_text": "TLA+ operational spec of Run/Flow/function nodes + PropsEngine.tla predicates + MCEngine/TPEngine front-ends + Go harness"},
+   {"name": "tla-tables", "path": "/verif/spec/FlytAccess.tla", "serves_properties": TABLES,
+    "kind_free_text": "decision-table specs FlytAccess / FlytBind / FlytConfig + TPTables front-end + Go harness logging facts per call"},
    {"name": "tla-store", "path": "/verif/spec/StoreSem.tla", "serves_properties": ["C13", "C14"],
     "kind_free_text": "StoreSem (sequential semantics), FlytStore (bounded MC + export), PropsStore (replay predicate), FlytStoreConc (linearizability search over recorded histories), FlytStoreLock (lock-level refinement) + Go harness"},
    {"name": "tla-pool", "path": "/verif/spec/FlytPool.tla", "serves_properties": ["C12", "C08"],
